@@ -5,6 +5,10 @@
 set -u
 export GOFLAGS=-mod=mod GOPROXY=off GOSUMDB=off GOTOOLCHAIN=local
 id=$1; wt=$2; demo=$3; shift 3
+# SEED_REPO / SEED_VERIF: where the patch is applied and the checks are run (default /repo and /verif; a scratch pair
+# - a clone of /repo and a copy of /verif whose harness/go.mod replace points at it - keeps /repo untouched while
+# long runs are using it)
+R=${SEED_REPO:-/repo}; V=${SEED_VERIF:-/verif}
 d=/verif/seeded/$id; mkdir -p $d
 ( cd $wt && git diff -- . ':(exclude)*seeded_demo_test.go' > $d/patch.diff )
 cp $wt/$demo $d/seeded_demo_test.go
@@ -22,10 +26,10 @@ for try in 1 2 3; do
   echo "== package suite with change, run $try (failures other than the demo): ${suite:-none}"
   [ -z "$suite" ] && break
 done
-git -C /repo apply $d/patch.diff || { echo "PATCH DOES NOT APPLY TO /repo"; exit 4; }
+git -C $R apply $d/patch.diff || { echo "PATCH DOES NOT APPLY TO $R"; exit 4; }
 for c in "$@"; do
-  out=$(cd /verif && ./check $c 2>&1 | grep -E "^(VIOLATION|OK|INCONCLUSIVE)" | head -3 | tr '\n' ' ')
+  out=$(cd $V && ./check $c 2>&1 | grep -E "^(VIOLATION|OK|INCONCLUSIVE)" | head -3 | tr '\n' ' ')
   echo "== check $c: $out"
 done
-git -C /repo checkout -- .
-git -C /repo status --short
+git -C $R checkout -- .
+git -C $R status --short
